@@ -20,6 +20,9 @@ R == Rec[l]
 IsEv(e) == l <= Len(Rec) /\ R.ev = e /\ l' = l + 1
 NonItems == {<<"nohdr">>, <<"section">>, <<"nocomment">>}
 
+\* a position lies on the token lo..hi (hi: one past its last byte; an empty token is the position lo itself)
+OnToken(p, lo, hi) == p >= lo /\ (p < hi \/ p = lo)
+
 TReset ==
   /\ IsEv("reset")
   /\ active' = (R.kind = "parser" /\ R.parser \in {"btor2"} /\ ~R.faulty)
@@ -41,7 +44,7 @@ TEnd ==
   /\ active /\ IsEv("pend")
   /\ \E r \in {ReadLoc(vis)} :
        /\ failed = "" => r[1] = "ok" /\ r[2] = items
-       /\ failed = "syntax" => r[1] = "bad" /\ gupos >= r[3] /\ gupos <= r[4] /\ r[2] = items
+       /\ failed = "syntax" => r[1] = "bad" /\ OnToken(gupos, r[3], r[4]) /\ r[2] = items
   /\ UNCHANGED <<active, vis, items, failed, gupos>>
 
 TSkip ==
